@@ -638,6 +638,28 @@ theorem late_registered_option_precedence : ∀ b : Fin 8,
                            else if b.val.testBit 0 then .int 1 else .int 0) := by
   decide +kernel
 
+/-- the three addressing forms of a late-registered option (`name`, `:name` for the top-level project only,
+`sub:name`): each project sees the value addressed to it, else the global one, for every subset of the three forms
+on the command line — both when the top-level project registers the option (then the subproject is initialised) and
+when the subproject registers it first.  (Before the repair of `add_system_option_internal` the `:name` value stayed
+pending forever.) -/
+def lateAddrScenario (subFirst : Bool) (b : Fin 8) : Option Val × Option Val × Option Val :=
+  let kR : Key := ⟨"backend_max_links".toList, some [], .host⟩
+  let kS : Key := ⟨"backend_max_links".toList, some "sub".toList, .host⟩
+  let ent (bit : Nat) (k : Key) (i : Nat) : Dict := if b.val.testBit bit then [(k, lateVal i)] else []
+  let cmd := ent 0 kLate 1 ++ ent 1 kR 2 ++ ent 2 kS 3
+  let spec : ObjSpec := { kind := .integer (some 0) none, default := .int 0 }
+  let s := run (coreDataInit (Store.new false)).2
+    (if subFirst then [.initTop [] cmd [], .initSub "sub".toList [] [] cmd [], .addSystem kS spec]
+     else [.initTop [] cmd [], .addSystem kLate spec, .initSub "sub".toList [] [] cmd []])
+  ((getValueFor s kLate).toOption, (getValueFor s kR).toOption, (getValueFor s kS).toOption)
+
+theorem late_registered_option_addressing : ∀ (subFirst : Bool) (b : Fin 8),
+    lateAddrScenario subFirst b =
+      (let g : Val := if b.val.testBit 0 then .int 1 else .int 0
+       (some g, some (if b.val.testBit 1 then .int 2 else g), some (if b.val.testBit 2 then .int 3 else g))) := by
+  decide +kernel
+
 /-! ## prefix-dependent directory defaults -/
 
 def kDir (n : String) : Key := ⟨n.toList, none, .host⟩
